@@ -190,4 +190,137 @@ def Rel (v : Option Counter × Option Nat) (ks : KS) : Prop :=
   | .counting s n => v = (some ⟨n, s⟩, none) ∧ 0 < n
   | .jailed u => v = (none, some u)
 
+/-! ### module level (mod_prison.go, rules.go, product_rule_table.go)
+
+  `prisonHandler`: rules of product "global" first, then the rules of the request's product.
+  `processRules`: every rule of the list whose condition matches calls `recordAndCheck` (so ALL matching
+  rules count the request) until one denies with action CLOSE / FINISH, which ends the handler; a deny of
+  a rule with another action (here REQ_HEADER_SET) runs the action and processing goes on.
+  `AccessSigner.Sign` failing (a signed header / cookie / query / url pattern is missing) makes
+  `recordAndCheck` return false without touching the dictionaries.
+  Reload (`productRuleTable.load`): a conf that fails the checks changes nothing; otherwise the table
+  is REPLACED, and a rule takes over the two dictionaries of the old rule with the same product and the
+  same name (capacity only ever enlarged), every other rule starts with empty dictionaries. -/
+
+structure RuleM where
+  name : Nat
+  cp : Nat
+  stay : Nat
+  th : Nat
+  acap : Nat          -- effective capacity of the access dictionary
+  pcap : Nat          -- effective capacity of the prison dictionary
+  needSel : Bool      -- condition: false = default_t(), true = the request must carry header X-Sel
+  stop : Bool         -- action CLOSE / FINISH (true) or REQ_HEADER_SET (false)
+  sign : Nat          -- which AccessSignConf (interpreted by `ReqM.key`)
+  st : St := {}
+
+def RuleM.cfg (r : RuleM) : Cfg := ⟨r.cp, r.stay, r.th, r.acap, r.pcap⟩
+
+structure ReqM where
+  product : Nat
+  sel : Bool
+  key : Nat → Bool → Option Key   -- AccessSigner.Sign per sign configuration AND per condition string (the
+                                 -- signature is labelled with the rule's condStr); none = Sign returns an error
+  t : Nat                    -- value of every clock read of this request
+
+structure PR where
+  stopped : Bool := false
+  denied : List Nat := []          -- names of the rules that denied, in order
+  rules : List RuleM := []
+  ev : List Key := []
+  cmps : List (Nat × Nat) := []
+
+def processRules (q : ReqM) : List RuleM → PR
+  | [] => {}
+  | r :: rs =>
+    if r.needSel && !q.sel then
+      let x := processRules q rs
+      { x with rules := r :: x.rules }
+    else
+      match q.key r.sign r.needSel with
+      | none =>
+        let x := processRules q rs
+        { x with rules := r :: x.rules }
+      | some k =>
+        let o := recordAndCheck r.cfg r.st k (fun _ => q.t)
+        let r' : RuleM := { r with st := o.st }
+        if o.deny && r.stop then
+          { stopped := true, denied := [r.name], rules := r' :: rs, ev := o.ev, cmps := o.cmps }
+        else
+          let x := processRules q rs
+          { stopped := x.stopped, denied := (if o.deny then [r.name] else []) ++ x.denied,
+            rules := r' :: x.rules, ev := o.ev ++ x.ev, cmps := o.cmps ++ x.cmps }
+
+abbrev Table := List (Nat × List RuleM)
+
+def tblFind : Table → Nat → Option (List RuleM)
+  | [], _ => none
+  | (p, rs) :: r, q => if p = q then some rs else tblFind r q
+
+def tblSet : Table → Nat → List RuleM → Table
+  | [], _, _ => []
+  | (p, rs) :: r, q, v => if p = q then (p, v) :: r else (p, rs) :: tblSet r q v
+
+/-- `processProductRules` -/
+def onProduct (tb : Table) (p : Nat) (q : ReqM) : PR × Table :=
+  match tblFind tb p with
+  | none => ({}, tb)
+  | some rs =>
+    let x := processRules q rs
+    (x, tblSet tb p x.rules)
+
+/-- `prisonHandler` (global product = 0) -/
+def handle (tb : Table) (q : ReqM) : PR × Table :=
+  let g := onProduct tb 0 q
+  if g.1.stopped then g
+  else
+    let x := onProduct g.2 q.product q
+    ({ stopped := x.1.stopped, denied := g.1.denied ++ x.1.denied, rules := [],
+       ev := g.1.ev ++ x.1.ev, cmps := g.1.cmps ++ x.1.cmps }, x.2)
+
+/-- one rule of a rule file (periods in seconds, everything as written) -/
+structure RuleSpec where
+  name : Nat
+  cp : Int
+  stay : Int
+  th : Int
+  ac : Int
+  pc : Int
+  needSel : Bool
+  stop : Bool
+  sign : Nat
+
+/-- `PrisonRuleCheck` (numeric part) -/
+def RuleSpec.valid (r : RuleSpec) : Bool :=
+  decide (0 < r.cp) && decide (0 ≤ r.th) && decide (0 ≤ r.stay) && decide (0 < r.ac) && decide (0 < r.pc)
+
+def distinctNames : List RuleSpec → Bool
+  | [] => true
+  | r :: rs => !(rs.any (·.name == r.name)) && distinctNames rs
+
+/-- `productRuleConfCheck`; `wellFormed` = the file parses, all fields present, actions allowed -/
+def confValid (wellFormed : Bool) (conf : List (Nat × List RuleSpec)) : Bool :=
+  wellFormed && conf.all fun pr => pr.2.all RuleSpec.valid && distinctNames pr.2
+
+def ruleFind : List RuleM → Nat → Option RuleM
+  | [], _ => none
+  | r :: rs, n => if r.name = n then some r else ruleFind rs n
+
+/-- the old rule with the same product and name, if any -/
+def oldRule (tb : Table) (p n : Nat) : Option RuleM := (tblFind tb p).bind (ruleFind · n)
+
+/-- `newPrisonRule` + `initDict(oldRule)`; `scale` divides the periods (harness hook) -/
+def mkRule (scale : Nat) (old : Option RuleM) (s : RuleSpec) : RuleM :=
+  { name := s.name, cp := s.cp.toNat * 1000000000 / scale, stay := s.stay.toNat * 1000000000 / scale,
+    th := s.th.toNat,
+    acap := (match old with | some o => if s.ac.toNat < o.acap then o.acap else s.ac.toNat | none => s.ac.toNat),
+    pcap := (match old with | some o => if s.pc.toNat < o.pcap then o.pcap else s.pc.toNat | none => s.pc.toNat),
+    needSel := s.needSel, stop := s.stop, sign := s.sign,
+    st := (match old with | some o => o.st | none => {}) }
+
+def reload (scale : Nat) (tb : Table) (wellFormed : Bool) (conf : List (Nat × List RuleSpec)) : Table :=
+  if confValid wellFormed conf then
+    conf.map fun pr => (pr.1, pr.2.map fun s => mkRule scale (oldRule tb pr.1 s.name) s)
+  else tb
+
 end BfeVerif.C53
